@@ -106,9 +106,11 @@ def rule_census(prog, fixture=False):
         ok = False
         why = ""
         for f, fsuffix, k, reason in ALLOWED_SITES:
-            if fn.relfile() == f and fn.qn.endswith(fsuffix) and kind == k:
+            # granularity: the source file of the two extract commands / the gzip reader, and the kind of
+            # call; which function of that file does it is free to change (path confinement is R-C12-2's job)
+            if fn.relfile() == f and kind == k:
                 ok, why = True, reason
-                seen.add((f, fsuffix, k))
+                seen.add((f, k))
         if fixture and kind in ("ofstream",) and fn.qn.endswith("allowed_writer"):
             ok, why = True, "fixture"
         r.add(key, fn.loc(n), ok, why if ok else
@@ -116,8 +118,8 @@ def rule_census(prog, fixture=False):
               "extract-files/extract-unused could create files, or an input could be altered" % (kind, fn.qn))
     if not fixture:
         for f, fsuffix, k, reason in ALLOWED_SITES:
-            if (f, fsuffix, k) not in seen:
-                raise AnalysisBroken("confirmed write site %s::%s (%s) no longer found: re-confirm the table" % (f, fsuffix, k))
+            if (f, k) not in seen:
+                raise AnalysisBroken("confirmed write site %s (%s) no longer found: re-confirm the table" % (f, k))
     return r
 
 
